@@ -739,6 +739,9 @@ pub fn run_c15(report: &mut Report) {
         ("as-path-regex-and-set", "AS-A AND <^AS65001 .* AS65002$>".into(), Plan::default()),
         ("attribute-match", "community.contains(65000:1)".into(), Plan::default()),
         ("attribute-match-2", "community(65000:1)".into(), Plan::default()),
+        // first something that is skipped with a warning (a range operator that does not apply to the IPv4 routes),
+        // then a hard failure
+        ("skipped-item-then-unknown-as-set", "AS65001^33-40 OR AS-GONE".into(), Plan::default()),
         // registry data that can never be evaluated: filter-sets that refer to themselves / to each other
         ("filter-set-referring-to-itself", "FLTR-LOOP".into(), Plan::default()),
         ("filter-sets-referring-to-each-other", "AS-A AND FLTR-P".into(), Plan::default()),
